@@ -95,9 +95,9 @@ def run_body(ctx, name, test, plugs):
   beh = _beh(spec, inv)
   ctx.ev('body_start', name, inv)
   try:
-    for argname in sorted(plugs):
-      inst = plugs[argname]
-      ctx.ev('plug_seen', name, argname, type(inst).__name__, getattr(inst, 'serial', -1))
+    if plugs or spec['plugs']:
+      ctx.ev('plug_args', name, tuple((a, type(plugs[a]).__name__, getattr(plugs[a], 'serial', -1))
+                                      for a in sorted(plugs)))
     if inv == 1 and spec.get('first'):
       ctx.ev('fresh_state', name, len(test.state), sorted(str(k) for k in test.state))
     test.state['seen_' + name] = inv
@@ -213,17 +213,7 @@ class ScriptedTestDiagnoser(diagnoses_lib.BaseTestDiagnoser):
     return [htf.Diagnosis(RESULTS[r], 'scripted', is_failure=bool(f)) for (r, f) in out]
 
 
-class _NameHashMeta(type):
-  """Classes hash by name: TestDescriptor.plug_types is a set of classes."""
-
-  def __hash__(cls):
-    return hash(cls.__name__)
-
-  def __eq__(cls, other):
-    return cls is other
-
-  def __ne__(cls, other):
-    return cls is not other
+from wx.meta import NameHashMeta as _NameHashMeta  # untraced: hashing must not cost line steps
 
 
 class _ScriptedPlug(base_plugs.BasePlug, metaclass=_NameHashMeta):
@@ -290,7 +280,7 @@ PLUGS = {'': [P0, P1, P2], 'B:': [Q0, Q1, Q1]}
 
 def make_callback(ctx, idx, kind, sink):
   def callback(record):
-    ctx.ev('callback', idx, str(record.outcome.name if record.outcome else None), id(record) % 100000)
+    ctx.ev('callback', idx, str(record.outcome.name if record.outcome else None))
     sink.append((idx, record))
     if kind == 'raise':
       raise OtherExc('callback %d' % idx)
